@@ -11,8 +11,9 @@ from chython.files.daylight import tokenize as TK
 ID = 'C03'
 RULE = ('exhaustive token strings over a 24-token SMILES alphabet up to length 4 (quick) / 5 (thorough); random '
         'syntactically valid strings from an own generator (atoms with every isotope/charge spelling/H count/map, '
-        'branches, 1- and 2-digit closures with bond symbols, dots, directional bonds, chirality marks, CX radicals, '
-        'reaction arrows with empty roles); the 4200 corpus strings, RDKit random spellings of them, and every '
+        'branches, 1- and 2-digit closures with bond symbols and direction marks, dots, directional bonds, chirality marks, CX radicals, '
+        'reaction arrows with empty roles); 12 ring templates x every placement of direction marks at the opening / closing '
+        'closure digit; the 4200 corpus strings, RDKit random spellings of them, and every '
         'single-character deletion/insertion/substitution of sampled valid strings; oracle: independent reference '
         'reader (accept/reject + graph as written + own parity / cis-trans derivation), RDKit for H counts and '
         'configuration, exception classifier (only ValueError subclasses may escape); non-trivial = accepted string '
@@ -29,12 +30,14 @@ CONFIG = {
               'exhaustive_subspaces': ['all strings of <= 4 tokens over the 24-token alphabet'],
               'floors': {'evaluations': 300000, 'distinct_nontrivial': 100000, 'exhaustive.strings': 300000,
                          'verdict.both-accept': 8000, 'verdict.both-reject': 100000, 'graph.compared': 8000,
-                         'stereo.centres-compared': 1500, 'rdkit.h-compared': 800, 'charge-spellings-seen': 14}},
+                         'stereo.centres-compared': 1500, 'rdkit.h-compared': 800, 'charge-spellings-seen': 14,
+                         'closure-marks.opening-digit-only': 90, 'closure-marks.closing-digit-only': 90}},
     'thorough': {'shards': 16, 'budget_s': 1800, 'maxlen': 5, 'n_random': 600000, 'n_corpus': 4200, 'n_corrupt': 60,
                  'exhaustive_subspaces': ['all strings of <= 5 tokens over the 24-token alphabet'],
                  'floors': {'evaluations': 8000000, 'distinct_nontrivial': 1000000, 'exhaustive.strings': 8000000,
                             'verdict.both-accept': 200000, 'verdict.both-reject': 1000000, 'graph.compared': 200000,
-                            'stereo.centres-compared': 20000, 'rdkit.h-compared': 3000, 'charge-spellings-seen': 16}},
+                            'stereo.centres-compared': 20000, 'rdkit.h-compared': 3000, 'charge-spellings-seen': 16,
+                            'closure-marks.opening-digit-only': 90, 'closure-marks.closing-digit-only': 90}},
 }
 
 # reach counter on the tokenizer's charge table
@@ -324,6 +327,11 @@ ATOMS = ['C', 'N', 'O', 'S', 'P', 'F', 'Cl', 'Br', 'I', 'B', 'c', 'n', 'o', 's',
 BONDS = ['', '', '', '', '-', '=', '#', ':', '~', '/', '\\']
 
 
+CLOSURE_TEMPLATES = ['C{a}OCCCC{b}=C{c}F', 'F{c}C=C{a}CCCOC{b}', 'C{a}=C{c}CCCCCC{b}', 'C{a}CCCCCC{c}C=C{b}', 'C{a}(=C{c}F)OCCCC{b}',
+                     'N{a}CCCC{b}=C{c}C', 'C{a}OCCCC{b}(=C{c}Cl)', 'F{c}C(C)=C{a}CCCOC{b}', 'C{a}OCC(C{b}=C{c}F)C', '[CH2]{a}OCCC[C]{b}=[CH]{c}Br',
+                     'C{a}SCCC{b}=C{c}C=C', 'O=C{a}NCCC{b}=C{c}c1ccccc1']
+
+
 def random_valid(rng):
     """syntactically valid string from the language definition (chemically arbitrary)"""
     out = []
@@ -353,12 +361,12 @@ def random_valid(rng):
                     break
                 del open_rings[num]
                 free.append(num)
-                sym = rng.choice(['', '', '', '=', '-'])
+                sym = rng.choice(['', '', '', '=', '-', '/', '\\'])
             else:
                 num = rng.choice(free[:12] if rng.random() < .8 else free)
                 free.remove(num)
                 open_rings[num] = k
-                sym = rng.choice(['', '', '', '='])
+                sym = rng.choice(['', '', '', '=', '/', '\\'])
             out.append(sym + (str(num) if num < 10 else '%%%d' % num))
         if depth and since_open > 0 and rng.random() < .4:
             out.append(')')
@@ -440,6 +448,25 @@ def worker(ctx):
         if rng.random() < .05:
             rads = sorted(rng.sample(range(0, 6), rng.randrange(1, 3)))
             judge(ctx, s + ' |^1:%s|' % ','.join(map(str, rads)), 'generated-cx')
+    # 3b. direction marks at ring-closure digits: at the opening digit only, at the closing digit only, at both; the stereo
+    # double bond on the opening atom, on the closing atom, inside the ring, behind a branch; one- and two-digit numbers
+    k = 0
+    for tpl in CLOSURE_TEMPLATES:
+        for a, b, c, num in itertools.product(('', '/', '\\'), ('', '/', '\\'), ('/', '\\'), ('1', '%12')):
+            k += 1
+            if not ctx.mine(k):
+                continue
+            t = tpl.replace('{a}', a + num).replace('{b}', b + num).replace('{c}', c)
+            ctx.count('closure-marks.strings')
+            if a and not b:
+                ctx.count('closure-marks.opening-digit-only')
+            elif b and not a:
+                ctx.count('closure-marks.closing-digit-only')
+            judge(ctx, t, 'closure-marks')
+            if a and a == b:
+                ctx.count('closure-marks.contradictory-not-compared-with-rdkit')   # a->b and b->a both up (or both down): no toolkit agrees on a reading
+            else:
+                rdkit_check(ctx, t, 'closure-marks')
     # 4. hostile hand-picked
     if ctx.shard == 0:
         for s in ['(', ')', '(>>', 'C>>(', '>>', '>', 'C>', '>C>', 'C>>', '>>C', 'C.>>', 'C..C', '.C', 'C.', 'C(', 'C)', 'C()',
